@@ -213,6 +213,21 @@ func c02Do(c *core.C, idx int, race bool) {
 		files["buf.yaml"] = "version: v1beta1\nbuild:\n  roots:\n" + yamlList("    ", roots)
 		run.WriteTree(ws4, files)
 	}
+	// a fifth copy: the self-contained module alone as a v1 module whose configuration names several DEPRECATED rule
+	// ids of each kind (buf prints one warning per id to stderr; the ids are kept in maps)
+	ws5 := filepath.Join(base, "ws5")
+	{
+		files := map[string]string{}
+		for p, text := range v.R.Flat() {
+			if strings.HasPrefix(p, "cyc/") {
+				files[strings.TrimPrefix(p, "cyc/")] = text
+			}
+		}
+		files["buf.yaml"] = "version: v1\nbreaking:\n  use:\n" + yamlList("    ", []string{"FILE", "FIELD_SAME_CTYPE", "FIELD_SAME_LABEL", "FILE_SAME_JAVA_STRING_CHECK_UTF8", "FILE_SAME_PHP_GENERIC_SERVICES", "MESSAGE_SAME_MESSAGE_SET_WIRE_FORMAT"}) +
+			"  ignore_only:\n    FIELD_SAME_CTYPE:\n      - acme/cyc/a\n    FIELD_SAME_LABEL:\n      - acme/cyc/b\n" +
+			"lint:\n  use:\n    - DEFAULT\n    - IMPORT_NO_WEAK\n"
+		run.WriteTree(ws5, files)
+	}
 	env := run.BufEnv(filepath.Join(c.Tmp, "home"), nil)
 	// some type names for --type
 	var types []string
@@ -284,6 +299,8 @@ func c02Do(c *core.C, idx int, race bool) {
 		{"format -d v1beta1-roots", []string{"format", "-d"}, ws4},
 		{"build v1beta1-roots", []string{"build", "-o", "-#format=binpb"}, ws4},
 		{"ls-files v1beta1-roots", []string{"ls-files"}, ws4},
+		{"breaking deprecated-ids", []string{"breaking", "--against", ws5}, ws5},
+		{"lint deprecated-ids", []string{"lint"}, ws5},
 		{"ls-files", []string{"ls-files"}, wsDir},
 		{"ls-files --include-imports", []string{"ls-files", "--include-imports", "--format", "json"}, wsDir},
 		{"dep graph", []string{"dep", "graph"}, wsDir},
@@ -586,8 +603,8 @@ func init() {
 	core.Register(&core.Check{
 		ID:    "C02",
 		Level: "exploration",
-		Rule: "per PRNG-generated workspace (3–5 modules incl. one whose packages form two import cycles sharing the first hop, lint plants, unformatted files, an edited copy for breaking): 25 commands " +
-			"(build binpb/json/txtpb/yaml, build --path, build --type (random and related: nested+enclosing, method+service), lint json/text/junit/github-actions, breaking junit, breaking, format, format -d, format of a tree with one unparsable file, format -d / build / ls-files of the same files as one v1beta1 module with several build.roots, ls-files ±imports, dep graph dot/json, config ls-lint-rules/ls-breaking-rules) each executed 4 (quick) / 10 (thorough) times under GOMAXPROCS∈{1,2,4,16} × parallelism∈{1,2,3,16} × seeded yields at job dispatch × permuted flag order, " +
+		Rule: "per PRNG-generated workspace (3–5 modules incl. one whose packages form two import cycles sharing the first hop, lint plants, unformatted files, an edited copy for breaking): 27 commands " +
+			"(build binpb/json/txtpb/yaml, build --path, build --type (random and related: nested+enclosing, method+service), lint json/text/junit/github-actions, breaking junit, breaking, format, format -d, format of a tree with one unparsable file, format -d / build / ls-files of the same files as one v1beta1 module with several build.roots, breaking / lint of a v1 module whose configuration names several deprecated rule ids (warnings on stderr), ls-files ±imports, dep graph dot/json, config ls-lint-rules/ls-breaking-rules) each executed 4 (quick) / 10 (thorough) times under GOMAXPROCS∈{1,2,4,16} × parallelism∈{1,2,3,16} × seeded yields at job dispatch × permuted flag order, " +
 			"plus permuted modules/rule ids in buf.yaml and shuffled storage walk order at library level (image bytes, b4/b5 digests, storage.DiffBytes of two shuffled buckets); repeated in the -race build. A (workspace, command) pair is counted non-trivial only if ≥2 distinct job-completion orders were actually observed through the thread hook trace",
 		Assumptions: []string{
 			"only the mtime stamps in the ---/+++ headers that diff(1) prints for `format -d` are masked; they are a function of wall-clock time, which the property does not quantify over",
